@@ -164,7 +164,7 @@ def w2b_bracket_helpers(prog, ctx, rule="W2"):
                 if all_neg:            # !A || !B  ==  !(A && B)
                     op = "or" if op == "and" else "and"
                     neg = not neg
-                return (op, neg)
+                return (op, neg, None if (all_neg and any(x.k == "UnaryOperator" and x.j.get("op") == "!" for x in sides)) else all_neg)
         return None
     for fname in ("addbrackets", "stripbrackets"):
         if not prog.has_fn(fname):
@@ -177,7 +177,7 @@ def w2b_bracket_helpers(prog, ctx, rule="W2"):
         if len(shapes) != 1:
             ctx.inconclusive(rule, "%s: bracketed means '[' first and ']' last" % fname, f.where, "%d tests that combine the two bracket comparisons" % len(shapes))
             continue
-        x, (op, neg) = shapes[0]
+        x, (op, neg, by_ne) = shapes[0]
         # the two comparisons themselves: the FIRST character with '[', the LAST one (index strlen - 1) with ']', each by equality
         wrong = None
         pname = f.params[0]["name"]
@@ -187,8 +187,8 @@ def w2b_bracket_helpers(prog, ctx, rule="W2"):
             side = a9 if a9.const_value() is None else b9
             if ch not in (ord("["), ord("]")):
                 continue
-            if cmpn.j["op"] != "==":
-                wrong = wrong or (cmpn, "compared with `!=`")
+            if by_ne is not None and cmpn.j["op"] != ("!=" if by_ne else "=="):
+                wrong = wrong or (cmpn, "compared with `%s`" % cmpn.j["op"])
             st9 = render(side)
             if ch == ord("["):
                 if st9 not in ("*" + pname, pname + "[0]"):
